@@ -9,7 +9,7 @@ import collections, concurrent.futures as cf, hashlib, os, re
 from .common import VERIF, LEAN, file_hash, sh
 
 LEVEL = "fault_enumeration"
-PARTS = ["c14_alloc.inc", "c14_scen.inc", "c14_scen2.inc", "c14_scen3.inc", "c14_scen4.inc", "c14_reject.inc"]
+PARTS = ["c14_gen.inc", "c14_alloc.inc", "c14_scen.inc", "c14_scen2.inc", "c14_scen3.inc", "c14_scen4.inc", "c14_reject.inc"]
 
 # ---------------------------------------------------------------------------------------------
 # classification of a failing run: (site, tags) for known_findings.json
@@ -96,7 +96,7 @@ MPQ_MARKS = ("__gmpq_", "Interval", "Box<", "BD_Shape<", "Octagonal_Shape<", "DB
 def gmpxx_internal(leaked, thrower):
     """At most two GMP blocks leaked, no operator-new block, and both the leaked blocks and the failing allocation belong to ONE
     mpq_class object under construction / one operator<< of gmpxx: `mpq_class(const mpq_class&)`, `mpq_class(expr)` and
-    `operator<<(ostream&, mpz_t/mpq_t)` of libgmpxx are not exception safe themselves (design-notes: probe t2.cc)."""
+    `operator<<(ostream&, mpz_t/mpq_t)` of libgmpxx are not exception safe themselves (design-notes/probes/c14_gmpxx_mpq_ctor.cc)."""
     sites = [x for x in leaked.split("|") if x.startswith("gmp:")]
     if not sites:
         return False
